@@ -379,6 +379,12 @@ where
             })?;
         new_cells.push(cell_key);
     }
+    verif_failpoint!(
+        "flip/after_insert_cells",
+        FlipError::NeighborWiring {
+            message: "verif: injected failure after inserting the new cells".to_string(),
+        }
+    );
 
     let boundary_facets =
         extract_cavity_boundary(tds, removed_cells).map_err(|e| FlipError::NeighborWiring {
@@ -400,11 +406,24 @@ where
         message: e.to_string(),
     })?;
 
+    verif_failpoint!(
+        "flip/after_wire",
+        FlipError::NeighborWiring {
+            message: "verif: injected failure after wiring the new cells".to_string(),
+        }
+    );
     tds.remove_cells_by_keys(removed_cells);
+    verif_failpoint!(
+        "flip/after_remove_cells",
+        FlipError::TdsMutation {
+            message: "verif: injected failure after removing the old cells".to_string(),
+        }
+    );
     tds.normalize_coherent_orientation()
         .map_err(|e| FlipError::TdsMutation {
             message: e.to_string(),
         })?;
+    verif_tick!("flip/applied");
 
     debug_assert!(
         tds.is_coherently_oriented(),
@@ -2305,6 +2324,12 @@ where
                 message: e.to_string(),
             })?;
 
+    verif_failpoint!(
+        "flip/k1/after_insert_vertex",
+        FlipError::TdsMutation {
+            message: "verif: injected failure after inserting the vertex".to_string(),
+        }
+    );
     let context = build_k1_forward_context_from_cell(tds, cell_key, vertex_key)?;
     let result = apply_bistellar_flip::<K, U, V, D, 1>(tds, kernel, &context);
 
@@ -2340,6 +2365,12 @@ where
 
     let context = build_k1_inverse_context(tds, vertex_key)?;
     let info = apply_bistellar_flip_dynamic(tds, kernel, D + 1, &context)?;
+    verif_failpoint!(
+        "flip/k1_inverse/after_flip",
+        FlipError::TdsMutation {
+            message: "verif: injected failure before removing the collapsed vertex".to_string(),
+        }
+    );
 
     if let Some(vertex) = tds.get_vertex_by_key(vertex_key).copied() {
         let _ = tds.remove_vertex(&vertex);
@@ -2595,6 +2626,7 @@ where
     };
     // Snapshot the pre-repair state so a failed attempt doesn't poison retries.
     let tds_snapshot = tds.clone();
+    verif_tick!("repair/run");
 
     let attempt1_result = if D == 2 {
         repair_delaunay_with_flips_k2_attempt(tds, kernel, seed_cells, &attempt1)
@@ -2604,6 +2636,12 @@ where
 
     match attempt1_result {
         Ok(stats) => {
+            verif_failpoint!(
+                "repair/after_attempt1",
+                DelaunayRepairError::PostconditionFailed {
+                    message: "verif: injected failure after the first repair attempt".to_string(),
+                }
+            );
             if verify_repair_postcondition(tds, kernel, seed_cells).is_ok() {
                 return Ok(stats);
             }
@@ -2650,6 +2688,12 @@ where
             } else {
                 repair_delaunay_with_flips_k2_k3_attempt(tds, kernel, retry_seed_cells, &attempt3)
             }?;
+            verif_failpoint!(
+                "repair/after_attempt3",
+                DelaunayRepairError::PostconditionFailed {
+                    message: "verif: injected failure after the final repair attempt".to_string(),
+                }
+            );
 
             verify_repair_postcondition(tds, kernel, retry_seed_cells)?;
             Ok(stats3)
@@ -2697,6 +2741,12 @@ where
             } else {
                 repair_delaunay_with_flips_k2_k3_attempt(tds, kernel, retry_seed_cells, &attempt3)
             }?;
+            verif_failpoint!(
+                "repair/after_attempt3",
+                DelaunayRepairError::PostconditionFailed {
+                    message: "verif: injected failure after the final repair attempt".to_string(),
+                }
+            );
 
             verify_repair_postcondition(tds, kernel, retry_seed_cells)?;
             Ok(stats3)
